@@ -35,13 +35,21 @@ for arg in sys.argv[1:]:
     s = open(f'{hx}/Cargo.toml').read().replace('path = "/repo"', f'path = "{wt}"'); open(f'{hx}/Cargo.toml', 'w').write(s)
     os.makedirs(f'{hx}/.cargo', exist_ok=True); open(f'{hx}/.cargo/config.toml', 'w').write(f'[net]\noffline = true\n[build]\ntarget-dir = "{hx}/target"\n')
     b = sh(f'cd {hx} && cargo build --release --offline 2>&1 | tail -5')
+    scenv = ''
+    if 'C01' in checks:
+        sc = f'{hx}/stackcheck'
+        sh(f'rm -rf {sc}; mkdir -p {sc}/.cargo; cp -r /verif/stackcheck/src /verif/stackcheck/Cargo.toml /verif/stackcheck/Cargo.lock {sc}/')
+        t = open(f'{sc}/Cargo.toml').read().replace('path = "/repo"', f'path = "{wt}"'); open(f'{sc}/Cargo.toml', 'w').write(t)
+        open(f'{sc}/.cargo/config.toml', 'w').write(f'[net]\noffline = true\n[build]\ntarget-dir = "{hx}/target-stackcheck"\n')
+        sh(f'cd {sc} && cargo build --offline 2>&1 | tail -3')
+        scenv = f'AVTMC_STACKCHECK={hx}/target-stackcheck/debug/avt-stackcheck '
     if not os.path.exists(f'{hx}/target/release/avtmc') or 'error' in b.stdout:
         res['error'] = 'harness build: ' + b.stdout[-400:]
     else:
         res['checks'] = {}
         for c in checks:
             t0 = time.time()
-            r = sh(f'cd {hx} && AVTMC_OUT={hx}/out {hx}/target/release/avtmc check {c} quick')
+            r = sh(f'cd {hx} && {scenv}AVTMC_OUT={hx}/out {hx}/target/release/avtmc check {c} quick')
             v = [l for l in r.stdout.splitlines() if l.startswith('VIOLATION')]
             row = {'exit': r.returncode, 'violation_properties': sorted(set(l.split()[1].split('=')[1] for l in v)), 'wall_s': round(time.time() - t0, 1)}
             fs = sorted(glob.glob(f'{hx}/out/replays/*.json'))
